@@ -83,12 +83,11 @@ class Env:
         import spox
         import spox._future as fut
         import spox.opset.ai.onnx.v17 as op
-        from spox._exceptions import InferenceError
-        from spox._var import Var
+        from spox import Var  # public
 
         ort.set_default_logger_severity(4)
         self.np, self.ort, self.spox, self.fut, self.op, self.Var = np, ort, spox, fut, op, Var
-        self.InferenceError = InferenceError
+        self.tree_fallbacks = 0
         self.dtypes = table["dtypes"]
         self.so = ort.SessionOptions()
         self.so.intra_op_num_threads = 1
@@ -116,13 +115,45 @@ class Env:
         return {"none": None, "str": "abc", "ellipsis": ...}[o[1] if len(o) > 1 else "none"]
 
     def err_name(self, e):
-        if isinstance(e, self.InferenceError):
-            return "InferenceError"
         return type(e).__name__
 
-    def tree(self, v, args, operands):
-        """Canonical rendering of the expression that produced Var `v` over the operands."""
+    def dispatcher(self):
+        """The installed dispatcher object (an internal: Var._operator_dispatcher)."""
+        return getattr(self.Var, "_operator_dispatcher")
+
+    def restore_dispatcher(self, saved):
+        if saved is not None:
+            try:
+                self.Var._operator_dispatcher = saved
+            except Exception:  # noqa: BLE001
+                pass
+
+    def const_label(self, val, args):
         np = self.np
+        dt = self.code(val.dtype)
+        for i, o in enumerate(args):
+            if isinstance(o, self.Var) or o is None or isinstance(o, (str, type(...))):
+                continue
+            try:
+                with warnings.catch_warnings():
+                    warnings.simplefilter("ignore")
+                    want = np.array(o, dtype=val.dtype)
+                if want.shape == val.shape and want.tobytes() == val.tobytes():
+                    return f"Constant[{dt}:#{i}]"
+            except Exception:  # noqa: BLE001
+                pass
+        return f"Constant[{dt}:{val.tolist()}]"
+
+    def tree(self, v, args, operands=None):
+        """Canonical rendering of the expression that produced Var `v` over the operands: read from the
+        Var/Node objects (fast); if those internals are not where they used to be, from the built ModelProto."""
+        try:
+            return self._tree_internal(v, args)
+        except Exception:  # noqa: BLE001
+            self.tree_fallbacks += 1
+            return self.tree_from_model(v, args)
+
+    def _tree_internal(self, v, args):
         for i, a in enumerate(args):
             if v is a:
                 return f"arg{i}"
@@ -132,23 +163,38 @@ class Env:
         name = node.op_type.identifier
         ins = [x for x in node.inputs.get_vars().values()]
         if name == "Cast":
-            return f"Cast[{self.code(node.attrs.to.value)}]({self.tree(ins[0], args, operands)})"
+            return f"Cast[{self.code(node.attrs.to.value)}]({self._tree_internal(ins[0], args)})"
         if name == "Constant":
-            val = node.attrs.value.value
-            dt = self.code(val.dtype)
-            for i, o in enumerate(args):
-                if isinstance(o, self.Var) or o is None or isinstance(o, (str, type(...))):
-                    continue
-                try:
-                    with warnings.catch_warnings():
-                        warnings.simplefilter("ignore")
-                        want = np.array(o, dtype=val.dtype)
-                    if want.shape == val.shape and want.tobytes() == val.tobytes():
-                        return f"Constant[{dt}:#{i}]"
-                except Exception:  # noqa: BLE001
-                    pass
-            return f"Constant[{dt}:{val.tolist()}]"
-        return f"{name}({','.join(self.tree(x, args, operands) for x in ins)})"
+            return self.const_label(node.attrs.value.value, args)
+        return f"{name}({','.join(self._tree_internal(x, args) for x in ins)})"
+
+    def tree_from_model(self, v, args):
+        """Public API only: build the model and render the expression of its output from the GraphProto."""
+        import onnx
+        from onnx import numpy_helper
+
+        feeds = {f"arg{i}": a for i, a in enumerate(args) if isinstance(a, self.Var)}
+        with warnings.catch_warnings():
+            warnings.simplefilter("ignore")
+            model = self.spox.build(feeds, {"r": v})
+        prod = {}
+        for nd in model.graph.node:
+            for o in nd.output:
+                prod[o] = nd
+
+        def render(name):
+            if name in feeds:
+                return name
+            nd = prod[name]
+            if nd.op_type == "Cast":
+                to = next(a.i for a in nd.attribute if a.name == "to")
+                return f"Cast[{self.code(onnx.helper.tensor_dtype_to_np_dtype(to))}]({render(nd.input[0])})"
+            if nd.op_type == "Constant":
+                val = numpy_helper.to_array(next(a.t for a in nd.attribute if a.name == "value"))
+                return self.const_label(val, args)
+            return f"{nd.op_type}({','.join(render(i) for i in nd.input)})"
+
+        return render("r")
 
     def dispatch(self, settings, opname, oa, ob, via_operator=True):
         """Run the real thing. Returns ({'err':…} | {'tree':…, 'dtype':…}, result Var or None, (a, b))."""
@@ -159,7 +205,7 @@ class Env:
         def call():
             if via_operator:
                 return PYOP[opname](a) if opname in UNARY else PYOP[opname](a, b)
-            d = self.Var._operator_dispatcher
+            d = self.dispatcher()
             return getattr(d, opname)(a) if opname in UNARY else getattr(d, opname)(a, b)
 
         try:
@@ -175,7 +221,10 @@ class Env:
             return {"err": self.err_name(e)}, None, args
         if not isinstance(r, self.Var):
             return {"err": f"returned:{type(r).__name__}"}, None, args
-        return {"tree": self.tree(r, args, [oa, ob]), "dtype": self.code(r.type.dtype)}, r, args
+        try:
+            return {"tree": self.tree(r, args, [oa, ob]), "dtype": self.code(r.type.dtype)}, r, args
+        except Exception as e:  # noqa: BLE001
+            return {"unobservable": f"{type(e).__name__}: {e}"}, r, args
 
     # ---- run a built expression on concrete inputs
     def run_model(self, r, feeds_vars, feeds):
@@ -384,7 +433,7 @@ def strictness_case(env: Env, opname, oa, ob):
             out.append((f"no-promotion:{'mixed-dtypes' if len(dts) == 2 else 'float-constant'}:not-TypeError",
                         f"{describe(env, opname, oa, ob)} with type promotion off ({must_raise}): {res}"))
     elif "tree" in res:
-        if env.dtypes[res["dtype"]] != dts[0] and not (opname == "floordiv" and False):
+        if env.dtypes[res["dtype"]] != dts[0]:
             out.append(("no-promotion:result-dtype-changed", f"{describe(env, opname, oa, ob)}: result {env.dtypes[res['dtype']]}"))
         if "Cast[" in res["tree"].replace(f"Cast[{res['dtype']}](And", "And"):  # the fix's bool->int Cast is not a conversion of an operand
             out.append(("no-promotion:operand-converted", f"{describe(env, opname, oa, ob)}: {res['tree']}"))
@@ -422,7 +471,7 @@ def run(ck: core.Check):
     rng = ck.rng
     ND = len(table["dtypes"])  # 12 (11 numeric + bool)
     NUM = list(range(11))
-    saved = env.Var._operator_dispatcher
+    saved = getattr(env.Var, "_operator_dispatcher", None)
 
     # ------------------------------------------------------------------ correspondence: dispatch decisions
     scal = [["int", 3], ["int", -1], ["int", 1000], ["int", 2 ** 40], ["float"], ["bool", True],
@@ -461,8 +510,16 @@ def run(ck: core.Check):
     stats = {"trees": 0, "TypeError": 0, "OverflowError": 0, "InferenceError": 0}
     for i, (st, opname, oa, ob) in enumerate(cases):
         via_op = oa[0] != "np"  # a numpy scalar on the left goes through numpy's own dispatch first
-        res, _, _ = env.dispatch(st, opname, oa, ob, via_operator=via_op)
+        try:
+            res, _, _ = env.dispatch(st, opname, oa, ob, via_operator=via_op)
+        except Exception as e:  # noqa: BLE001  (e.g. the dispatcher object is no longer where it was)
+            res = {"unobservable": f"{type(e).__name__}: {e}"}
         ck.count(("dispatch", repr(st), opname, repr(oa), repr(ob)))
+        if "unobservable" in res:
+            stats["unobservable"] = stats.get("unobservable", 0) + 1
+            if stats["unobservable"] <= 2:
+                ck.broken("correspondence", "C17 dispatcher not observable", f"{describe(env, opname, oa, ob if opname not in UNARY else None)}: {res['unobservable']}")
+            continue
         if "err" in res:
             stats[res["err"]] = stats.get(res["err"], 0) + 1
         else:
@@ -473,15 +530,25 @@ def run(ck: core.Check):
                 ck.broken("correspondence", "C17 dispatcher model-vs-implementation",
                           f"settings={st} {describe(env, opname, oa, ob if opname not in UNARY else None)}: model {model[i]} real {res}")
         ck.sample({"settings": st, "expr": describe(env, opname, oa, ob if opname not in UNARY else None), "real": res}, 4)
-    env.Var._operator_dispatcher = saved
+    env.restore_dispatcher(saved)
     ck.cov["dispatch_cases"] = len(cases)
     ck.cov["dispatch_mismatches"] = mism
     ck.cov["dispatch_outcomes"] = stats
+    ck.cov["trees_read_from_modelproto"] = env.tree_fallbacks
+    if env.tree_fallbacks:
+        ck.notes.append(f"{env.tree_fallbacks} operator trees were read from the built ModelProto (Var/Node internals not where they used to be)")
 
     # ------------------------------------------------------------------ oracle: values vs numpy (+ eval correspondence)
     def fail(kind, case, found):
         for key, what in found:
             ck.failure(key, what, dict(case, check=kind))
+
+    def safely(fn, *a):
+        try:
+            return fn(*a)
+        except Exception as e:  # noqa: BLE001
+            ck.broken("correspondence", "C17 strictness/outside oracle could not observe spox", f"{type(e).__name__}: {e}")
+            return []
 
     value_cases = []
     for opname in BIN:
@@ -505,6 +572,9 @@ def run(ck: core.Check):
         what = (f"{describe(env, opname, oa, ob)}: the runtime died ({res[1]}) on the model spox built, on operand values "
                 "for which numpy computes a result" if res[0] == "crash" else
                 f"{describe(env, opname, oa, ob)}: {res[1]}")
+        if res[0] == "exc" and res[1].split(":")[0] in ("AttributeError", "ImportError", "ModuleNotFoundError", "NameError"):
+            ck.broken("correspondence", "C17 value oracle could not observe spox", what)
+            return
         ck.failure(f"{opname}:{'runtime-crash' if res[0] == 'crash' else 'oracle-exception'}", what,
                    dict({"check": "value", "op": opname, "a": oa, "b": ob}, **(extra or {})))
 
@@ -598,23 +668,23 @@ def run(ck: core.Check):
         for a in NUM:
             for b in NUM:
                 fail("strict", {"op": opname, "a": ["var", a], "b": ["var", b]},
-                     strictness_case(env, opname, ["var", a], ["var", b]))
+                     safely(strictness_case, env, opname, ["var", a], ["var", b]))
                 n_strict += 1
             for s in [["float", 1.5], ["int", 2]]:
                 for oa, ob in ((["var", a], s), (s, ["var", a])):
-                    fail("strict", {"op": opname, "a": oa, "b": ob}, strictness_case(env, opname, oa, ob))
+                    fail("strict", {"op": opname, "a": oa, "b": ob}, safely(strictness_case, env, opname, oa, ob))
                     n_strict += 1
     for opname in BIN + LOGIC:
         for oa, ob in [(["var", 2], ["var", 2]), (["var", 9], ["var", 2]), (["var", 2], ["int", 2]), (["int", 2], ["var", 2]),
                        (["var", 9], ["float", 1.5]), (["float", 1.5], ["var", 9]), (["var", 11], ["var", 11])]:
-            fail("outside", {"op": opname, "a": oa, "b": ob}, outside_case(env, opname, oa, ob))
+            fail("outside", {"op": opname, "a": oa, "b": ob}, safely(outside_case, env, opname, oa, ob))
             n_strict += 1
     for opname in UNARY:
         for d in [2, 9, 11, 4]:
-            fail("outside", {"op": opname, "a": ["var", d]}, outside_case(env, opname, ["var", d], None))
+            fail("outside", {"op": opname, "a": ["var", d]}, safely(outside_case, env, opname, ["var", d], None))
             n_strict += 1
     ck.count(None, n_strict)
-    env.Var._operator_dispatcher = saved
+    env.restore_dispatcher(saved)
 
     ck.exhaustive = True
     ck.rule = (
@@ -642,9 +712,9 @@ def replay(ck: core.Check, doc) -> bool:
         return bool(ck.broken_items or ck.failures)
     env = Env(result_type.tabulate())
     case = doc["case"]
-    saved = env.Var._operator_dispatcher
+    saved = getattr(env.Var, "_operator_dispatcher", None)
     res = forked(lambda c: CHECKS[c["check"]](env, c), case)
-    env.Var._operator_dispatcher = saved
+    env.restore_dispatcher(saved)
     if res[0] != "ok":
         print(f"runtime failure on this input: {res}")
         return True
